@@ -66,22 +66,45 @@ Theorem C07_missing_positional_errors : forall cs init ign argv r,
   forallb (fun c => negb (has_missing c)) (pr_ctxs r) = true.
 Proof. exact missing_positional_errors. Qed.
 
-(** "A value-requiring flag left without a value is an error" -- FALSE for
-    list-kind flags (F-C07c) and for arguments that already have a value
-    (F-C07d): the model accepts, the executable specification rejects. *)
-Theorem C07_missing_value_errors_refuted_list :
-  exists cs init argv r,
-    c07_guard cs init = true /\
-    parser_parse cs init false argv = Ok r /\
-    spec_ok cs init false argv (Ok (obs_of_presult r)) = false.
-Proof. exact refuted_list. Qed.
+(** "A value-requiring flag left without a value is an error" -- since repair
+    9120dc5 (F-C07c, F-C07d fixed) also for list-kind flags and for arguments
+    that already hold a value (given earlier by flag, or positionally): the
+    former witnesses are ParseErrors and satisfy the complete [spec_ok]; an
+    optional-value flag repeated bare keeps its earlier value.  The universally
+    quantified statement is [C07_missing_value_raises] below. *)
+Theorem C07_missing_value_list_raises :
+  c07_guard small_cs (Some core_ctx) = true /\
+  parser_parse small_cs (Some core_ctx) false ["t"; "--lst"] = Err EParse /\
+  parser_parse small_cs (Some core_ctx) false ["t"; "--lst"; "a"; "--lst"] = Err EParse /\
+  spec_ok small_cs (Some core_ctx) false ["t"; "--lst"] (model_parse small_cs ICore false ["t"; "--lst"]) = true.
+Proof. exact missing_value_list_raises. Qed.
 
-Theorem C07_missing_value_errors_refuted_repeat :
-  exists cs init argv r,
-    c07_guard cs init = true /\
-    parser_parse cs init false argv = Ok r /\
-    spec_ok cs init false argv (Ok (obs_of_presult r)) = false.
-Proof. exact refuted_repeat. Qed.
+Theorem C07_missing_value_repeat_raises :
+  parser_parse small_cs (Some core_ctx) false ["t"; "--name"; "x"; "--name"] = Err EParse /\
+  parser_parse small_cs (Some core_ctx) false ["p"; "v"; "--pos"] = Err EParse /\
+  spec_ok small_cs (Some core_ctx) false ["t"; "--name"; "x"; "--name"]
+          (model_parse small_cs ICore false ["t"; "--name"; "x"; "--name"]) = true /\
+  exists r, parser_parse small_cs (Some core_ctx) false ["t"; "--opt"; "o"; "--opt"] = Ok r /\
+            map obs_of_ctx (tl (pr_ctxs r))
+            = [(Some "t", [("name", ANone); ("num", AInt 1); ("flag", ABool false);
+                           ("lst", AList []); ("opt", AStr "o")])].
+Proof. exact missing_value_repeat_raises. Qed.
+
+(** Historical record (F-C07c / F-C07d, fixed): [complete_flag_old] is the rule
+    before 9120dc5 ("needed a value" judged by [raw_value is None]).  On the
+    machines reached after "t --lst", "t --name x --name" and "p v --pos" -- the
+    dangling flag is current, flag_got_value is False -- the old rule was
+    satisfied by the raw_value already present and let the parse finish; the
+    repaired rule raises.  (A revert is caught by the harness: corpus/C07 keeps
+    the witnesses.) *)
+Theorem C07_missing_value_errors_historical_refuted :
+  (exists m, machine_after ["t"; "--lst"] = Some (Ok m) /\ m_got m = false /\
+             complete_flag_old m = Ok m /\ complete_flag m = Err EParse) /\
+  (exists m, machine_after ["t"; "--name"; "x"; "--name"] = Some (Ok m) /\ m_got m = false /\
+             complete_flag_old m = Ok m /\ complete_flag m = Err EParse) /\
+  (exists m, machine_after ["p"; "v"; "--pos"] = Some (Ok m) /\ m_got m = false /\
+             complete_flag_old m = Ok m /\ complete_flag m = Err EParse).
+Proof. exact missing_value_historical_refuted. Qed.
 
 (** "Raises exactly in the documented situations", the converse direction: a
     well-formed command line does NOT raise.  Universally quantified over the
@@ -133,13 +156,13 @@ Theorem C07_ambiguous_token_raises_partial : forall p f1 m0 pre m1 r tok rest,
   parse_argv p (pre ++ tok :: rest) = Err EParse.
 Proof. exact ambiguous_token_raises. Qed.
 
-(** B2 -- a value-requiring flag left without a value: the LAST token is an
-    exact flag of the current context for an argument that takes a non-optional
-    value and has not been given one before ([r_raw r = false]).  The guard is
-    exactly the complement of the two findings: list-kind arguments start with
-    raw_value = [] (F-C07c) and an argument that already holds a value has
-    raw_value set (F-C07d) -- both have [r_raw = true]. *)
-Theorem C07_missing_value_raises_partial : forall p f1 m0 pre m1 c k t i r,
+(** B2 -- a value-requiring flag left without a value (full for clause B2 of
+    [spec_ok] since repair 9120dc5): the LAST token is an exact flag of the
+    current context for an argument that takes a non-optional value.  No
+    condition on what the argument already holds: list kind, given before,
+    filled positionally -- the parse fails.  (Until 9120dc5 this carried the
+    guard [r_raw r = false], the complement of F-C07c/d.) *)
+Theorem C07_missing_value_raises : forall p f1 m0 pre m1 c k t i r,
   new_machine p = Ok m0 -> loop p f1 m0 pre = Some (Ok m1) ->
   no_ddash (pre ++ [t]) = true ->
   m_st m1 = SContext -> m_unparsed m1 = [] ->
@@ -147,9 +170,19 @@ Theorem C07_missing_value_raises_partial : forall p f1 m0 pre m1 c k t i r,
   clean_flag t = true ->
   find_flag (rc_args c) t = Some i -> nth_error (rc_args c) i = Some r ->
   takes_value (r_spec r) = true -> a_optional (r_spec r) = false ->
-  r_raw r = false ->
   fails (parse_argv p (pre ++ [t])).
 Proof. exact dangling_value_flag_raises. Qed.
+
+(** The "stale flag is inert" invariant behind every round-trip proof, restated
+    for the repaired [complete_flag]: it runs on every state entry with whatever
+    [self.flag] was left behind; when that flag's argument holds a value and --
+    if the flag needs one (list kind, or value-taking and not optional) -- this
+    occurrence received it ([flag_got_value], reset only by [switch_to_flag]),
+    then [complete_flag] changes nothing and the machine is not waiting. *)
+Theorem C07_stale_flag_is_inert : forall m,
+  inert m -> complete_flag m = Ok m /\ waiting m = false /\
+             forall p v, check_ambiguity p v m = Ok m.
+Proof. exact stale_flag_is_inert. Qed.
 
 Example C07_converse_hypotheses_inhabited :
   (exists m0 m1, new_machine ex_parser = Ok m0 /\ loop ex_parser 9 m0 ["t"; "v"] = Some (Ok m1) /\
@@ -169,7 +202,7 @@ Proof. exact converse_examples. Qed.
 (** A TEST, not the property: all 2958 command lines of <= 3 tokens over a
     14-token alphabet (task names, flags, glued/= forms, cluster, "--", inverse
     flag, core flag) against two tasks + the real core context satisfy the
-    complete [spec_ok] (A, B1-B4, C) except inside the catalogued findings. *)
+    complete [spec_ok] (A, B1-B5, C) -- without exemption since repair 9120dc5. *)
 Theorem C07_spec_bounded_3 : forallb sweep_ok (seqs 3 sweep_alpha) = true.
 Proof. exact spec_sweep_3. Qed.
 
